@@ -56,7 +56,12 @@ def check(ctx):
         g = tuple((canon_ids(simp(c), lm), pol) for c, pol in site.fact.guards)
         return (canon_ids(site.rowbase, lm) if site.rowbase is not None else canon_ids(site.row, lm), g)
 
-    for kind in ("loss", "gain", "heat", "cool", "mod"):
+    # no store into the Jacobian table at all: the table is kept in a representation that is not understood (not "every derivative
+    # is missing")
+    table_known = any(s.array == "jacrhs" and s.kind != "init" for s in m.sites)
+    if not table_known:
+        ctx.unrec("R1", "jacrhs:table", (FILE, m.func.lineno), f"no store into the Jacobian table `{m.JACNAME}` was found: how the table is represented / filled is not understood")
+    for kind in ("loss", "gain", "heat", "cool", "mod") if table_known else ():
         r, j = rhs[kind], jac[kind]
         if not r and not j:
             ctx.missing("R1", f"rhs:{kind}", (FILE, m.func.lineno), f"no RHS site of kind `{kind}` found; see C01")
@@ -599,6 +604,11 @@ def _r5(ctx, m):
 
 T = FILE
 MUTANTS = [
+    {'name': 'dense-filled-from-csr-with-row-cursor-advanced-by-if', 'file': DENSE, 'old': '    {% for r in ode.jac.rhs -%}\n    {% set neqns = ode.jac.nrow -%}\n    {% if r != "0.0" -%}\n    IJth(jmatrix, {{ (loop.index0/neqns) | int }}, {{ loop.index0%neqns }}) = {{ r | stmwrap(80, 24)}};\n    {% endif -%}\n    {% endfor %}\n', 'new': '    {% set cur = namespace(row=0) -%}\n    {% for col, val in zip(ode.jac.cols, ode.jac.vals) -%}\n    {% if loop.index0 >= ode.jac.rows[cur.row + 1] -%}\n    {% set cur.row = cur.row + 1 -%}\n    {% endif -%}\n    IJth(jmatrix, {{ cur.row }}, {{ col }}) = {{ val | stmwrap(80, 24)}};\n    {% endfor %}\n', 'rules': ['R4']},
+    {'name': 'odeint-rows-by-batch-transposed', 'file': ODEINT, 'old': '    {% for r in ode.jac.rhs -%}\n    {% set neqns = ode.jac.nrow -%}\n    {% if r != "0.0" -%}\n    j({{ (loop.index0/neqns) | int }}, {{ loop.index0%neqns }}) = {{ r | stmwrap(80, 24)}};\n    {% endif -%}\n    {% endfor %}\n', 'new': '    {% for rowterms in ode.jac.rhs | batch(ode.jac.nrow) -%}\n    {% set irow = loop.index0 -%}\n    {% for r in rowterms -%}\n    {% if r != "0.0" -%}\n    j({{ loop.index0 }}, {{ irow }}) = {{ r | stmwrap(80, 24)}};\n    {% endif -%}\n    {% endfor -%}\n    {% endfor %}\n', 'rules': ['R4']},
+    {'name': 'dense-decode-from-loop-index', 'file': DENSE, 'old': 'IJth(jmatrix, {{ (loop.index0/neqns) | int }}, {{ loop.index0%neqns }})', 'new': 'IJth(jmatrix, {{ (loop.index/neqns) | int }}, {{ loop.index%neqns }})', 'rules': ['R4']},
+    {'name': 'memo-dict-read-with-the-row-key', 'file': T, 'old': '            for specidx in rspecidx:\n                # df/dx, remove the dependency for current reactant\n                for ri in rspecidx:\n                    rsymcopy = rsym.copy()\n                    rsymcopy.remove(y[ri])\n                    term = f" - {\'*\'.join([f\'{rate_sym}[{rl}]\', *rsymcopy])}"\n                    jacrhs[specidx * n_eqns + ri] += term\n            for specidx in pspecidx:\n                for ri in rspecidx:\n                    rsymcopy = rsym.copy()\n                    rsymcopy.remove(y[ri])\n                    term = f" + {\'*\'.join([f\'{rate_sym}[{rl}]\', *rsymcopy])}"\n                    jacrhs[specidx * n_eqns + ri] += term\n', 'new': '            dflux = {}\n            for ri in rspecidx:\n                if ri not in dflux:\n                    rsymcopy = rsym.copy()\n                    rsymcopy.remove(y[ri])\n                    dflux[ri] = "*".join([f"{rate_sym}[{rl}]", *rsymcopy])\n            for specidx in rspecidx:\n                rowstart = specidx * n_eqns\n                for ri in rspecidx:\n                    jacrhs[rowstart + ri] += " - " + dflux[ri]\n            for specidx in pspecidx:\n                rowstart = specidx * n_eqns\n                for ri in rspecidx:\n                    jacrhs[rowstart + ri] += " + " + dflux[specidx]\n', 'rules': ['R1']},
+    {'name': 'signed-chain-gain-rows-taken-from-reactants', 'edits': [{'file': T, 'old': 'from pathlib import Path\n', 'new': 'from itertools import chain, repeat\nfrom pathlib import Path\n'}, {'file': T, 'old': '            for specidx in rspecidx:\n                # df/dx, remove the dependency for current reactant\n                for ri in rspecidx:\n                    rsymcopy = rsym.copy()\n                    rsymcopy.remove(y[ri])\n                    term = f" - {\'*\'.join([f\'{rate_sym}[{rl}]\', *rsymcopy])}"\n                    jacrhs[specidx * n_eqns + ri] += term\n            for specidx in pspecidx:\n                for ri in rspecidx:\n                    rsymcopy = rsym.copy()\n                    rsymcopy.remove(y[ri])\n                    term = f" + {\'*\'.join([f\'{rate_sym}[{rl}]\', *rsymcopy])}"\n                    jacrhs[specidx * n_eqns + ri] += term\n', 'new': '            changes = list(chain(zip(repeat(" - "), rspecidx), zip(repeat(" + "), rspecidx)))\n            for sign, specidx in changes:\n                for ri in rspecidx:\n                    rsymcopy = rsym.copy()\n                    rsymcopy.remove(y[ri])\n                    jacrhs[specidx * n_eqns + ri] += sign + "*".join([f"{rate_sym}[{rl}]", *rsymcopy])\n'}], 'rules': ['R1']},
     {"name": "helper-function-removes-from-the-shared-factor-list", "edits": [
         {"file": T, "old": '    def _prepare_ode_content(\n', "new": '    @staticmethod\n    def _minus_one(symbols, sym):\n        rest = symbols\n        rest.remove(sym)\n        return rest\n\n    def _prepare_ode_content(\n'},
         {"file": T, "old": '            for specidx in rspecidx:\n                # df/dx, remove the dependency for current reactant\n                for ri in rspecidx:\n                    rsymcopy = rsym.copy()\n                    rsymcopy.remove(y[ri])\n                    term = f" - {\'*\'.join([f\'{rate_sym}[{rl}]\', *rsymcopy])}"\n                    jacrhs[specidx * n_eqns + ri] += term\n            for specidx in pspecidx:\n                for ri in rspecidx:\n                    rsymcopy = rsym.copy()\n                    rsymcopy.remove(y[ri])\n                    term = f" + {\'*\'.join([f\'{rate_sym}[{rl}]\', *rsymcopy])}"\n                    jacrhs[specidx * n_eqns + ri] += term\n',
@@ -631,6 +641,18 @@ MUTANTS = [
     {"name": "skip-catalyst-jac", "file": T, "old": "            for specidx in pspecidx:\n                for ri in rspecidx:\n                    rsymcopy = rsym.copy()", "new": "            for specidx in pspecidx:\n                if specidx in rspecidx:\n                    continue\n                for ri in rspecidx:\n                    rsymcopy = rsym.copy()", "rules": ["R1"]},
 ]
 BENIGN = [
+    {"name": "sentinel-as-named-class-and-module-constant", "edits": [
+        {"file": T, "old": "    @dataclass\n    class GeneralInfo:\n", "new": "    _ZERO = \"0.0\"\n\n    @dataclass\n    class GeneralInfo:\n"},
+        {"file": T, "old": "\nclass TemplateLoader:\n", "new": "\n_NO_TERM = \"0.0\"\n\n\nclass TemplateLoader:\n"},
+        {"file": T, "old": "        jacrhs = [\"0.0\"] * n_eqns * n_eqns", "new": "        jacrhs = [self._ZERO] * n_eqns * n_eqns"},
+        {"file": T, "old": "                    \"0.0\"\n                    if jacrhs[n_spec * n_eqns + si] == \"0.0\"", "new": "                    _NO_TERM\n                    if jacrhs[n_spec * n_eqns + si] == TemplateLoader._ZERO"},
+        {"file": T, "old": "                if elem != \"0.0\":", "new": "                if elem != self._ZERO:"},
+        {"file": T, "old": "pattern = [0 if j == \"0.0\" else 1 for j in jacrhs]", "new": "pattern = [0 if j == _NO_TERM else 1 for j in jacrhs]"}]},
+    {'name': 'dense-decode-index-minus-one-floordiv-remainder-by-subtraction', 'file': DENSE, 'old': '    {% for r in ode.jac.rhs -%}\n    {% set neqns = ode.jac.nrow -%}\n    {% if r != "0.0" -%}\n    IJth(jmatrix, {{ (loop.index0/neqns) | int }}, {{ loop.index0%neqns }}) = {{ r | stmwrap(80, 24)}};\n    {% endif -%}\n    {% endfor %}\n', 'new': '    {% set neqns = ode.jac.nrow -%}\n    {% for r in ode.jac.rhs -%}\n    {% if r != "0.0" -%}\n    {% set flat = loop.index - 1 -%}\n    IJth(jmatrix, {{ flat // neqns }}, {{ flat - neqns * (flat // neqns) }}) = {{ r | stmwrap(80, 24)}};\n    {% endif -%}\n    {% endfor %}\n'},
+    {'name': 'odeint-sentinel-test-swapped-arms', 'file': ODEINT, 'old': '    {% for r in ode.jac.rhs -%}\n    {% set neqns = ode.jac.nrow -%}\n    {% if r != "0.0" -%}\n    j({{ (loop.index0/neqns) | int }}, {{ loop.index0%neqns }}) = {{ r | stmwrap(80, 24)}};\n    {% endif -%}\n    {% endfor %}\n', 'new': '    {% for r in ode.jac.rhs -%}\n    {% set neqns = ode.jac.nrow -%}\n    {% if r == "0.0" -%}\n    {% else -%}\n    j({{ (loop.index0/neqns) | int }}, {{ loop.index0%neqns }}) = {{ r | stmwrap(80, 24)}};\n    {% endif -%}\n    {% endfor %}\n'},
+    {'name': 'odeint-rows-by-batch', 'file': ODEINT, 'old': '    {% for r in ode.jac.rhs -%}\n    {% set neqns = ode.jac.nrow -%}\n    {% if r != "0.0" -%}\n    j({{ (loop.index0/neqns) | int }}, {{ loop.index0%neqns }}) = {{ r | stmwrap(80, 24)}};\n    {% endif -%}\n    {% endfor %}\n', 'new': '    {% for rowterms in ode.jac.rhs | batch(ode.jac.nrow) -%}\n    {% set irow = loop.index0 -%}\n    {% for r in rowterms -%}\n    {% if r != "0.0" -%}\n    j({{ irow }}, {{ loop.index0 }}) = {{ r | stmwrap(80, 24)}};\n    {% endif -%}\n    {% endfor -%}\n    {% endfor %}\n'},
+    {'name': 'derivative-terms-in-a-memo-dict-keyed-by-reactant', 'file': T, 'old': '            for specidx in rspecidx:\n                # df/dx, remove the dependency for current reactant\n                for ri in rspecidx:\n                    rsymcopy = rsym.copy()\n                    rsymcopy.remove(y[ri])\n                    term = f" - {\'*\'.join([f\'{rate_sym}[{rl}]\', *rsymcopy])}"\n                    jacrhs[specidx * n_eqns + ri] += term\n            for specidx in pspecidx:\n                for ri in rspecidx:\n                    rsymcopy = rsym.copy()\n                    rsymcopy.remove(y[ri])\n                    term = f" + {\'*\'.join([f\'{rate_sym}[{rl}]\', *rsymcopy])}"\n                    jacrhs[specidx * n_eqns + ri] += term\n', 'new': '            dflux = {}\n            for ri in rspecidx:\n                if ri not in dflux:\n                    rsymcopy = rsym.copy()\n                    rsymcopy.remove(y[ri])\n                    dflux[ri] = "*".join([f"{rate_sym}[{rl}]", *rsymcopy])\n            for specidx in rspecidx:\n                rowstart = specidx * n_eqns\n                for ri in rspecidx:\n                    jacrhs[rowstart + ri] += " - " + dflux[ri]\n            for specidx in pspecidx:\n                rowstart = specidx * n_eqns\n                for ri in rspecidx:\n                    jacrhs[rowstart + ri] += " + " + dflux[ri]\n'},
+    {'name': 'loss-and-gain-rows-walked-as-one-signed-chain', 'edits': [{'file': T, 'old': 'from pathlib import Path\n', 'new': 'from itertools import chain, repeat\nfrom pathlib import Path\n'}, {'file': T, 'old': '            for specidx in rspecidx:\n                # df/dx, remove the dependency for current reactant\n                for ri in rspecidx:\n                    rsymcopy = rsym.copy()\n                    rsymcopy.remove(y[ri])\n                    term = f" - {\'*\'.join([f\'{rate_sym}[{rl}]\', *rsymcopy])}"\n                    jacrhs[specidx * n_eqns + ri] += term\n            for specidx in pspecidx:\n                for ri in rspecidx:\n                    rsymcopy = rsym.copy()\n                    rsymcopy.remove(y[ri])\n                    term = f" + {\'*\'.join([f\'{rate_sym}[{rl}]\', *rsymcopy])}"\n                    jacrhs[specidx * n_eqns + ri] += term\n', 'new': '            changes = list(chain(zip(repeat(" - "), rspecidx), zip(repeat(" + "), pspecidx)))\n            for sign, specidx in changes:\n                for ri in rspecidx:\n                    rsymcopy = rsym.copy()\n                    rsymcopy.remove(y[ri])\n                    jacrhs[specidx * n_eqns + ri] += sign + "*".join([f"{rate_sym}[{rl}]", *rsymcopy])\n'}]},
     {"name": "derivative-terms-precomputed-per-reactant", "file": T, "old": '            for specidx in rspecidx:\n                # df/dx, remove the dependency for current reactant\n                for ri in rspecidx:\n                    rsymcopy = rsym.copy()\n                    rsymcopy.remove(y[ri])\n                    term = f" - {\'*\'.join([f\'{rate_sym}[{rl}]\', *rsymcopy])}"\n                    jacrhs[specidx * n_eqns + ri] += term\n            for specidx in pspecidx:\n                for ri in rspecidx:\n                    rsymcopy = rsym.copy()\n                    rsymcopy.remove(y[ri])\n                    term = f" + {\'*\'.join([f\'{rate_sym}[{rl}]\', *rsymcopy])}"\n                    jacrhs[specidx * n_eqns + ri] += term\n',
      "new": '            dterms = []\n            for ri in rspecidx:\n                rsymcopy = rsym.copy()\n                rsymcopy.remove(y[ri])\n                dterms.append((ri, "*".join([f"{rate_sym}[{rl}]", *rsymcopy])))\n            for specidx in rspecidx:\n                for ri, dterm in dterms:\n                    jacrhs[specidx * n_eqns + ri] += f" - {dterm}"\n            for specidx in pspecidx:\n                for ri, dterm in dterms:\n                    jacrhs[specidx * n_eqns + ri] += f" + {dterm}"\n'},
     {"name": "derivative-terms-by-helper-function-and-zip", "edits": [
